@@ -27,7 +27,7 @@ Definition res_code (r : res) : Z :=
   | ROk => 0 | RTimeout => 1 | RClosed => 2 | RNoRuntime => 3 | RCancelled => 9 | RUnit => 10
   end.
 
-(* a timeout argument: absent, zero, or a positive duration (pools have no runtime here) *)
+(* a timeout argument: absent, zero, or a positive duration *)
 Inductive tmo := TNone | TZero | TFin.
 
 (* how the pool was built *)
@@ -36,7 +36,8 @@ Inductive ctor := CNew | CConfig | CIter.
 Record cfg := {
   how : ctor;
   max0 : nat;            (* max_size; for CIter the number of initial objects *)
-  ptmo : tmo             (* PoolConfig::timeout *)
+  ptmo : tmo;            (* PoolConfig::timeout *)
+  rt : bool              (* PoolConfig::runtime is Some(_) *)
 }.
 
 (* which entry point of the get family *)
@@ -87,6 +88,7 @@ Inductive label :=
 | Start (t : nat) (o : op)
 | Step (t : nat)
 | Cancel (t : nat)
+| Fire (t : nat)                               (* task t is polled after its deadline has passed *)
 | Mark (n : nat).
 
 (* ghost events; the harness logs the same events on the implementation side *)
@@ -114,42 +116,45 @@ Record state := {
   dead : list nat;
   gone : list nat;
   next_oid : nat;
-  log : list event
+  log : list event;
+  timed : list nat       (* ghost: the calls that run under a timer (finite timeout, runtime present) *)
 }.
 
 (* ------------------------------------------------------------------ setters *)
 Definition set_permits (s : state) (v : Z) : state :=
-  {| permits := v; closed := closed s; queue := queue s; spermits := spermits s; sclosed := sclosed s; squeue := squeue s; vec := vec s; size := size s; avail := avail s; tasks := tasks s; out := out s; loose := loose s; dead := dead s; gone := gone s; next_oid := next_oid s; log := log s |}.
+  {| permits := v; closed := closed s; queue := queue s; spermits := spermits s; sclosed := sclosed s; squeue := squeue s; vec := vec s; size := size s; avail := avail s; tasks := tasks s; out := out s; loose := loose s; dead := dead s; gone := gone s; next_oid := next_oid s; log := log s; timed := timed s |}.
 Definition set_closed (s : state) (v : bool) : state :=
-  {| permits := permits s; closed := v; queue := queue s; spermits := spermits s; sclosed := sclosed s; squeue := squeue s; vec := vec s; size := size s; avail := avail s; tasks := tasks s; out := out s; loose := loose s; dead := dead s; gone := gone s; next_oid := next_oid s; log := log s |}.
+  {| permits := permits s; closed := v; queue := queue s; spermits := spermits s; sclosed := sclosed s; squeue := squeue s; vec := vec s; size := size s; avail := avail s; tasks := tasks s; out := out s; loose := loose s; dead := dead s; gone := gone s; next_oid := next_oid s; log := log s; timed := timed s |}.
 Definition set_queue (s : state) (v : list nat) : state :=
-  {| permits := permits s; closed := closed s; queue := v; spermits := spermits s; sclosed := sclosed s; squeue := squeue s; vec := vec s; size := size s; avail := avail s; tasks := tasks s; out := out s; loose := loose s; dead := dead s; gone := gone s; next_oid := next_oid s; log := log s |}.
+  {| permits := permits s; closed := closed s; queue := v; spermits := spermits s; sclosed := sclosed s; squeue := squeue s; vec := vec s; size := size s; avail := avail s; tasks := tasks s; out := out s; loose := loose s; dead := dead s; gone := gone s; next_oid := next_oid s; log := log s; timed := timed s |}.
 Definition set_spermits (s : state) (v : Z) : state :=
-  {| permits := permits s; closed := closed s; queue := queue s; spermits := v; sclosed := sclosed s; squeue := squeue s; vec := vec s; size := size s; avail := avail s; tasks := tasks s; out := out s; loose := loose s; dead := dead s; gone := gone s; next_oid := next_oid s; log := log s |}.
+  {| permits := permits s; closed := closed s; queue := queue s; spermits := v; sclosed := sclosed s; squeue := squeue s; vec := vec s; size := size s; avail := avail s; tasks := tasks s; out := out s; loose := loose s; dead := dead s; gone := gone s; next_oid := next_oid s; log := log s; timed := timed s |}.
 Definition set_sclosed (s : state) (v : bool) : state :=
-  {| permits := permits s; closed := closed s; queue := queue s; spermits := spermits s; sclosed := v; squeue := squeue s; vec := vec s; size := size s; avail := avail s; tasks := tasks s; out := out s; loose := loose s; dead := dead s; gone := gone s; next_oid := next_oid s; log := log s |}.
+  {| permits := permits s; closed := closed s; queue := queue s; spermits := spermits s; sclosed := v; squeue := squeue s; vec := vec s; size := size s; avail := avail s; tasks := tasks s; out := out s; loose := loose s; dead := dead s; gone := gone s; next_oid := next_oid s; log := log s; timed := timed s |}.
 Definition set_squeue (s : state) (v : list nat) : state :=
-  {| permits := permits s; closed := closed s; queue := queue s; spermits := spermits s; sclosed := sclosed s; squeue := v; vec := vec s; size := size s; avail := avail s; tasks := tasks s; out := out s; loose := loose s; dead := dead s; gone := gone s; next_oid := next_oid s; log := log s |}.
+  {| permits := permits s; closed := closed s; queue := queue s; spermits := spermits s; sclosed := sclosed s; squeue := v; vec := vec s; size := size s; avail := avail s; tasks := tasks s; out := out s; loose := loose s; dead := dead s; gone := gone s; next_oid := next_oid s; log := log s; timed := timed s |}.
 Definition set_vec (s : state) (v : list nat) : state :=
-  {| permits := permits s; closed := closed s; queue := queue s; spermits := spermits s; sclosed := sclosed s; squeue := squeue s; vec := v; size := size s; avail := avail s; tasks := tasks s; out := out s; loose := loose s; dead := dead s; gone := gone s; next_oid := next_oid s; log := log s |}.
+  {| permits := permits s; closed := closed s; queue := queue s; spermits := spermits s; sclosed := sclosed s; squeue := squeue s; vec := v; size := size s; avail := avail s; tasks := tasks s; out := out s; loose := loose s; dead := dead s; gone := gone s; next_oid := next_oid s; log := log s; timed := timed s |}.
 Definition set_size (s : state) (v : Z) : state :=
-  {| permits := permits s; closed := closed s; queue := queue s; spermits := spermits s; sclosed := sclosed s; squeue := squeue s; vec := vec s; size := v; avail := avail s; tasks := tasks s; out := out s; loose := loose s; dead := dead s; gone := gone s; next_oid := next_oid s; log := log s |}.
+  {| permits := permits s; closed := closed s; queue := queue s; spermits := spermits s; sclosed := sclosed s; squeue := squeue s; vec := vec s; size := v; avail := avail s; tasks := tasks s; out := out s; loose := loose s; dead := dead s; gone := gone s; next_oid := next_oid s; log := log s; timed := timed s |}.
 Definition set_avail (s : state) (v : Z) : state :=
-  {| permits := permits s; closed := closed s; queue := queue s; spermits := spermits s; sclosed := sclosed s; squeue := squeue s; vec := vec s; size := size s; avail := v; tasks := tasks s; out := out s; loose := loose s; dead := dead s; gone := gone s; next_oid := next_oid s; log := log s |}.
+  {| permits := permits s; closed := closed s; queue := queue s; spermits := spermits s; sclosed := sclosed s; squeue := squeue s; vec := vec s; size := size s; avail := v; tasks := tasks s; out := out s; loose := loose s; dead := dead s; gone := gone s; next_oid := next_oid s; log := log s; timed := timed s |}.
 Definition set_tasks (s : state) (v : list pc) : state :=
-  {| permits := permits s; closed := closed s; queue := queue s; spermits := spermits s; sclosed := sclosed s; squeue := squeue s; vec := vec s; size := size s; avail := avail s; tasks := v; out := out s; loose := loose s; dead := dead s; gone := gone s; next_oid := next_oid s; log := log s |}.
+  {| permits := permits s; closed := closed s; queue := queue s; spermits := spermits s; sclosed := sclosed s; squeue := squeue s; vec := vec s; size := size s; avail := avail s; tasks := v; out := out s; loose := loose s; dead := dead s; gone := gone s; next_oid := next_oid s; log := log s; timed := timed s |}.
 Definition set_out (s : state) (v : list nat) : state :=
-  {| permits := permits s; closed := closed s; queue := queue s; spermits := spermits s; sclosed := sclosed s; squeue := squeue s; vec := vec s; size := size s; avail := avail s; tasks := tasks s; out := v; loose := loose s; dead := dead s; gone := gone s; next_oid := next_oid s; log := log s |}.
+  {| permits := permits s; closed := closed s; queue := queue s; spermits := spermits s; sclosed := sclosed s; squeue := squeue s; vec := vec s; size := size s; avail := avail s; tasks := tasks s; out := v; loose := loose s; dead := dead s; gone := gone s; next_oid := next_oid s; log := log s; timed := timed s |}.
 Definition set_loose (s : state) (v : list nat) : state :=
-  {| permits := permits s; closed := closed s; queue := queue s; spermits := spermits s; sclosed := sclosed s; squeue := squeue s; vec := vec s; size := size s; avail := avail s; tasks := tasks s; out := out s; loose := v; dead := dead s; gone := gone s; next_oid := next_oid s; log := log s |}.
+  {| permits := permits s; closed := closed s; queue := queue s; spermits := spermits s; sclosed := sclosed s; squeue := squeue s; vec := vec s; size := size s; avail := avail s; tasks := tasks s; out := out s; loose := v; dead := dead s; gone := gone s; next_oid := next_oid s; log := log s; timed := timed s |}.
 Definition set_dead (s : state) (v : list nat) : state :=
-  {| permits := permits s; closed := closed s; queue := queue s; spermits := spermits s; sclosed := sclosed s; squeue := squeue s; vec := vec s; size := size s; avail := avail s; tasks := tasks s; out := out s; loose := loose s; dead := v; gone := gone s; next_oid := next_oid s; log := log s |}.
+  {| permits := permits s; closed := closed s; queue := queue s; spermits := spermits s; sclosed := sclosed s; squeue := squeue s; vec := vec s; size := size s; avail := avail s; tasks := tasks s; out := out s; loose := loose s; dead := v; gone := gone s; next_oid := next_oid s; log := log s; timed := timed s |}.
 Definition set_gone (s : state) (v : list nat) : state :=
-  {| permits := permits s; closed := closed s; queue := queue s; spermits := spermits s; sclosed := sclosed s; squeue := squeue s; vec := vec s; size := size s; avail := avail s; tasks := tasks s; out := out s; loose := loose s; dead := dead s; gone := v; next_oid := next_oid s; log := log s |}.
+  {| permits := permits s; closed := closed s; queue := queue s; spermits := spermits s; sclosed := sclosed s; squeue := squeue s; vec := vec s; size := size s; avail := avail s; tasks := tasks s; out := out s; loose := loose s; dead := dead s; gone := v; next_oid := next_oid s; log := log s; timed := timed s |}.
 Definition set_next_oid (s : state) (v : nat) : state :=
-  {| permits := permits s; closed := closed s; queue := queue s; spermits := spermits s; sclosed := sclosed s; squeue := squeue s; vec := vec s; size := size s; avail := avail s; tasks := tasks s; out := out s; loose := loose s; dead := dead s; gone := gone s; next_oid := v; log := log s |}.
+  {| permits := permits s; closed := closed s; queue := queue s; spermits := spermits s; sclosed := sclosed s; squeue := squeue s; vec := vec s; size := size s; avail := avail s; tasks := tasks s; out := out s; loose := loose s; dead := dead s; gone := gone s; next_oid := v; log := log s; timed := timed s |}.
 Definition set_log (s : state) (v : list event) : state :=
-  {| permits := permits s; closed := closed s; queue := queue s; spermits := spermits s; sclosed := sclosed s; squeue := squeue s; vec := vec s; size := size s; avail := avail s; tasks := tasks s; out := out s; loose := loose s; dead := dead s; gone := gone s; next_oid := next_oid s; log := v |}.
+  {| permits := permits s; closed := closed s; queue := queue s; spermits := spermits s; sclosed := sclosed s; squeue := squeue s; vec := vec s; size := size s; avail := avail s; tasks := tasks s; out := out s; loose := loose s; dead := dead s; gone := gone s; next_oid := next_oid s; log := v; timed := timed s |}.
+Definition set_timed (s : state) (v : list nat) : state :=
+  {| permits := permits s; closed := closed s; queue := queue s; spermits := spermits s; sclosed := sclosed s; squeue := squeue s; vec := vec s; size := size s; avail := avail s; tasks := tasks s; out := out s; loose := loose s; dead := dead s; gone := gone s; next_oid := next_oid s; log := log s; timed := v |}.
 
 Definition pcof (s : state) (t : nat) : pc := get PNone t (tasks s).
 Definition setpc (s : state) (t : nat) (p : pc) : state := set_tasks s (upd PNone t p (tasks s)).
@@ -175,13 +180,13 @@ Definition init (c : cfg) : state :=
          spermits := 0; sclosed := false; squeue := [];
          vec := rev (seq 0 (max0 c)); size := Z.of_nat (max0 c); avail := Z.of_nat (max0 c);
          tasks := []; out := []; loose := []; dead := []; gone := [];
-         next_oid := max0 c; log := [] |}
+         next_oid := max0 c; log := []; timed := [] |}
   | _ =>
       {| permits := 0; closed := false; queue := [];
          spermits := Z.of_nat (max0 c); sclosed := false; squeue := [];
          vec := []; size := 0; avail := 0;
          tasks := []; out := []; loose := []; dead := []; gone := [];
-         next_oid := 0; log := [] |}
+         next_oid := 0; log := []; timed := [] |}
   end.
 
 (* ------------------------------------------------------------------ the semaphores *)
@@ -277,7 +282,10 @@ Definition step_task (c : cfg) (s : state) (t : nat) : option state :=
   | GStart (KTimed e) rm => Some (setpc (set_avail s (avail s - 1)) t (GAcq e rm))
   | GAcq TNone rm => Some (acquire s t true rm true)
   | GAcq TZero rm => Some (acquire s t true rm false)
-  | GAcq TFin rm => Some (setpc s t (UAvail RNoRuntime))
+  | GAcq TFin rm =>
+      (* runtime.timeout(d, semaphore.acquire()): the first poll is the one of acquire() *)
+      if rt c then Some (acquire (set_timed s (t :: timed s)) t true rm true)
+      else Some (setpc s t (UAvail RNoRuntime))
   | GWait rm a =>
       if closed s then
         (* a closed semaphore fails the poll; an assigned permit goes back to the counter *)
@@ -340,11 +348,25 @@ Definition cancel_task (c : cfg) (s : state) (t : nat) : option state :=
   | _ => None
   end.
 
+(* ------------------------------------------------------------------ Fire *)
+(* the deadline of a timed call has passed and the call is polled: Timeout::poll polls the
+   acquire() first, so a permit that was assigned (or a close) in the meantime still wins; a
+   call that is still waiting leaves the queue (Acquire::drop) and answers Timeout *)
+Definition fire_task (c : cfg) (s : state) (t : nat) : option state :=
+  if negb (rt c && mem_nat t (timed s)) then None else
+  match pcof s t with
+  | GWait rm a =>
+      if closed s || a then step_task c s t
+      else Some (setpc (set_queue s (remove_nat t (queue s))) t (UAvail RTimeout))
+  | _ => None
+  end.
+
 Definition step (c : cfg) (s : state) (l : label) : option state :=
   match l with
   | Start t o => start c s t o
   | Step t => step_task c s t
   | Cancel t => cancel_task c s t
+  | Fire t => fire_task c s t
   | Mark _ => Some s
   end.
 
